@@ -49,6 +49,7 @@ def run(ctx):
     samples = []
     evals = 0
     slow = 0
+    harness_only = []
     for h, r in zip(hists, results):
         key_ctx = {k: h.get(k) for k in ("mode", "target", "fmt", "producers", "msgs", "sink", "noise", "cores", "flavour", "switches", "pace")}
         if r["rc"] == "slow":
@@ -71,7 +72,7 @@ def run(ctx):
             for k, raw in viol.items():
                 ctx.violation("C02:" + k, "%s :: %s" % (key_ctx, raw[:2500]), h)
             if harness:
-                raise core.Inconclusive("TSan report in harness code only: %s" % list(harness.values())[0][:1500])
+                harness_only.append(list(harness.values())[0][:1500])
         st = r["stats"]
         for k in ("messages", "switches", "handovers"):
             totals[k] += st.get(k, 0)
@@ -84,6 +85,10 @@ def run(ctx):
             fps.add((h["target"], h["producers"], st["fingerprint"]))
         if len(samples) < 3 and st.get("switches", 0) > 5:
             samples.append({"history": h, "observed": st, "hooks": r["hooks"]})
+    if harness_only and not ctx.fresh_violations():
+        # a race report whose stacks show harness frames only says nothing about the library; it voids the run unless the run already has
+        # a verdict of its own (with the library's locks broken the harness' recorders, which rely on them, race as well)
+        raise core.Inconclusive("TSan report in harness code only: %s" % harness_only[0])
     cov = {
         "evaluations": evals,
         "distinct_nontrivial": len(fps),
